@@ -4,7 +4,7 @@
 From Coq Require Import NArith ZArith List.
 From Coq Require Import Reals.
 From Flocq Require Import Core IEEE754.Binary IEEE754.Bits.
-From KT Require Import Gen.Generated Gen.Alphabet Gen.GeneratedFacts Model.Rows Proof.CgrProof Proof.CgrFloat Proof.CgrExact.
+From KT Require Import Gen.Generated Gen.Alphabet Gen.FactsBase Gen.FactCentres Gen.FactCornersCgr Model.Rows Proof.CgrProof Proof.CgrFloat Proof.CgrExact.
 Import ListNotations.
 
 (* the corner table found in the code is the one the property names: A=(0,0), C=(0,S), G=(S,S), T,U=(S,0),
@@ -85,6 +85,10 @@ Proof. intros Sz b corner s lf ld HS Hb Hl. exact (cgr_b64_is_exact Sz b HS Hb c
 Example C11_example : m_cgr 1 [65; 67; 71; 84]%N = s_cgr 1 [65; 67; 71; 84]%N /\ m_cgr 1 [65; 78]%N = err.
 Proof. vm_compute. split; reflexivity. Qed.
 
+(* the walk starts from (S/2, S/2) in the sources too (both copies of cgr_maps) *)
+Theorem C11_centre_in_the_code : cgr_centre_is_half_cgr = true /\ cgr_centre_is_half_oligocgr = true.
+Proof. exact cgr_centres_ok. Qed.
+
 Print Assumptions C11_corners.
 Print Assumptions C11_one_point_per_base.
 Print Assumptions C11_one_point_per_base_b64.
@@ -97,3 +101,4 @@ Print Assumptions C11_inside_square.
 Print Assumptions C11_last_bases_fix_subsquare.
 Print Assumptions C11_binary64_walk_stays_in_square.
 Print Assumptions C11_binary64_walk_is_exact_while_representable.
+Print Assumptions C11_centre_in_the_code.
